@@ -234,7 +234,7 @@ def SimG (C : Code) (ctx : List BI) (src base : VM) (e : Nat) (I : List Nat) (rf
   | .ret v => ∃ τ, Reach C src τ ∧ Common base τ l I false ∧ (∃ xs, τ.stack = v :: (xs ++ base.stack)) ∧
         CodeAt C τ.pc (retExitsS ctx ++ [Instr.ret])
   | .thr v => ∃ τ, Common base τ l I rf ∧ (∃ xs, τ.stack = xs ++ base.stack) ∧ Reach C src (VM.throwV (some v) τ)
-  | .fatal => False
+  | .fatal => ∃ τ, Reach C src τ ∧ τ.log = base.log ++ l ∧ τ.halted = some Compl.fatal
 
 def SimK (C : Code) (ctx : List BI) (σ : VM) (e : Nat) (I : List Nat) (rf : Bool) (l : List Ev) (k : K) : Prop :=
   SimG C ctx σ σ e I rf l k
@@ -267,7 +267,9 @@ theorem SimK.prepend {C : Code} {ctx : List BI} {σ σ1 : VM} {e : Nat} {I : Lis
   | thr v =>
     obtain ⟨τ, h2, ⟨xs, h3⟩, h4⟩ := h
     exact ⟨τ, hc.trans h2, ⟨xs, by rw [h3, hs]⟩, hr.trans h4⟩
-  | fatal => exact h
+  | fatal =>
+    obtain ⟨τ, h1, h2, h3⟩ := h
+    exact ⟨τ, hr.trans h1, by rw [h2, hc.log, List.append_assoc], h3⟩
 
 /-! ### arithmetic of relative jumps -/
 
